@@ -27,7 +27,7 @@ CLAIMED = {
              "numeric implementation whose order is total and equality symmetric on the numbers involved - by induction on the nesting depth "
              "through every keyword group - and instantiated for the Flocq binary64 instance the tie runs; no IMPORTANT!-tagged error is ever "
              "produced on data without 'headers' members (needed by oneOf); the decision procedure is proved sound and evaluated on every case "
-             "(about 74% of the quick run lies inside); the one-shot wrapper = validator verdict; validity of merged results; one refutation "
+             "(about 76% of the quick run lies inside); the one-shot wrapper = validator verdict; validity of merged results; one refutation "
              "witness per recorded finding class (the unrestricted statement is false of the faithful model). Outside the proved fragment "
              "(formats without or against the type list, patterns that do not compile, null under composition, typed carriers) "
              "agreement is decided per case by the L0 function evaluated in exact arithmetic (partial). Tie: L1 vs Go on verdicts (and all richer observables), and "
